@@ -2,68 +2,38 @@
    Only property theorems live here: each is closed by [exact], pinned by [Check ... : statement]
    and followed by [Print Assumptions].  The hash function is a universally quantified parameter.
 
-   Full statement of the structural part (DESIGN 5, C11):
-     structural_edit : for deletion, duplication, adjacent swap of whole valid records,
-                       recover (edit log) = Err _ \/ the result is a prefix of the committed history.
-   It is FALSE of the faithful model for commit markers: previous_frame_digest and
-   previous_committed_transaction_digest are written but never compared on read, and a commit
-   marker only selects "its" frames.  The refutations below are universal (every valid log), the
-   Example gives the concrete vm_compute witness; what IS detected is stated after them. *)
+   The structural part (deletion / duplication / reordering of commit markers) was FALSE of the code
+   before /repo commit a96d311 (finding F7: previous_*_digest fields are written but never compared,
+   a commit marker only selected "its" frames); the model follows the fixed code. *)
 From Coq Require Import List NArith.
 From Echo Require Import Base.Bytes Model.Wal Proofs.WalProofs Proofs.WalProofs2 Proofs.WalProofs3
   Proofs.WalProofs5 Proofs.WalProofs6.
 Import ListNotations.
 Open Scope N_scope.
 
-(* On the frames of a valid log (plus any uncommitted tail) EVERY selection of its commit markers -
-   omissions, repetitions, any order - is accepted, each marker yielding its transaction. *)
-Theorem commit_markers_unchained_refuted : forall (H : bytes -> N) l0 ts extra sel,
+(* Structural edits of commit markers.  recover_from_frames_and_commits is given the frames of a valid
+   log (plus any uncommitted tail) and ANY list built from that log's own commit markers - markers
+   removed, duplicated, reordered.  If it succeeds, the list is a prefix of the log's markers and the
+   recovered history is the corresponding prefix of the committed history; every other selection is an
+   error.  (Detected by the commit-marker tiling check added to /repo in commit a96d311; before that
+   commit every selection was accepted - finding F7, see the regression Example below.)
+   Hypothesis "LSN space not exhausted": no transaction ends at LSN 2^64-1 (Lsn::checked_next). *)
+Theorem commit_selection_detected : forall (H : bytes -> N) l0 ts extra cs r,
   log_valid H l0 ts -> consec (l0 + lenN (log_frames ts)) extra ->
-  Forall (fun f => frame_check H f = None) extra -> incl sel ts ->
-  recover_fc H (log_frames ts ++ extra) (map w_commit sel) =
-  Ok (map rtx_of sel, fc_tail (log_frames ts ++ extra) (map w_commit sel)).
-Proof. exact recover_fc_selected. Qed.
-Check commit_markers_unchained_refuted : forall (H : bytes -> N) l0 ts extra sel,
+  Forall (fun f => frame_check H f = None) extra ->
+  Forall (fun t => c_last (w_commit t) <> 2 ^ 64 - 1) ts ->
+  incl cs (map w_commit ts) -> log_frames ts <> [] ->
+  recover_fc H (log_frames ts ++ extra) cs = Ok r ->
+  exists n, cs = map w_commit (firstn n ts) /\ fst r = map rtx_of (firstn n ts).
+Proof. exact WalProofs2.commit_selection_detected. Qed.
+Check commit_selection_detected : forall (H : bytes -> N) l0 ts extra cs r,
   log_valid H l0 ts -> consec (l0 + lenN (log_frames ts)) extra ->
-  Forall (fun f => frame_check H f = None) extra -> incl sel ts ->
-  recover_fc H (log_frames ts ++ extra) (map w_commit sel) =
-  Ok (map rtx_of sel, fc_tail (log_frames ts ++ extra) (map w_commit sel)).
-Print Assumptions commit_markers_unchained_refuted.
-
-(* Removing the commit marker of any transaction but the last: accepted, the transaction vanishes,
-   the tail is reported Clean. *)
-Theorem commit_removal_refuted : forall (H : bytes -> N) l0 a t b,
-  log_valid H l0 (a ++ t :: b) -> b <> [] ->
-  recover_fc H (log_frames (a ++ t :: b)) (map w_commit (a ++ b)) = Ok (map rtx_of (a ++ b), TClean).
-Proof. exact commit_removal_accepted. Qed.
-Check commit_removal_refuted : forall (H : bytes -> N) l0 a t b,
-  log_valid H l0 (a ++ t :: b) -> b <> [] ->
-  recover_fc H (log_frames (a ++ t :: b)) (map w_commit (a ++ b)) = Ok (map rtx_of (a ++ b), TClean).
-Print Assumptions commit_removal_refuted.
-
-(* A duplicated commit marker: accepted, the transaction is returned twice. *)
-Theorem commit_duplicate_refuted : forall (H : bytes -> N) l0 a t b,
-  log_valid H l0 (a ++ t :: b) ->
-  recover_fc H (log_frames (a ++ t :: b)) (map w_commit (a ++ t :: t :: b)) =
-  Ok (map rtx_of (a ++ t :: t :: b), TClean).
-Proof. exact commit_duplicate_accepted. Qed.
-Check commit_duplicate_refuted : forall (H : bytes -> N) l0 a t b,
-  log_valid H l0 (a ++ t :: b) ->
-  recover_fc H (log_frames (a ++ t :: b)) (map w_commit (a ++ t :: t :: b)) =
-  Ok (map rtx_of (a ++ t :: t :: b), TClean).
-Print Assumptions commit_duplicate_refuted.
-
-(* Two adjacent commit markers exchanged: accepted, the transactions come back in the wrong order. *)
-Theorem commit_swap_refuted : forall (H : bytes -> N) l0 a t1 t2 b,
-  log_valid H l0 (a ++ t1 :: t2 :: b) -> b <> [] ->
-  recover_fc H (log_frames (a ++ t1 :: t2 :: b)) (map w_commit (a ++ t2 :: t1 :: b)) =
-  Ok (map rtx_of (a ++ t2 :: t1 :: b), TClean).
-Proof. exact commit_swap_accepted. Qed.
-Check commit_swap_refuted : forall (H : bytes -> N) l0 a t1 t2 b,
-  log_valid H l0 (a ++ t1 :: t2 :: b) -> b <> [] ->
-  recover_fc H (log_frames (a ++ t1 :: t2 :: b)) (map w_commit (a ++ t2 :: t1 :: b)) =
-  Ok (map rtx_of (a ++ t2 :: t1 :: b), TClean).
-Print Assumptions commit_swap_refuted.
+  Forall (fun f => frame_check H f = None) extra ->
+  Forall (fun t => c_last (w_commit t) <> 2 ^ 64 - 1) ts ->
+  incl cs (map w_commit ts) -> log_frames ts <> [] ->
+  recover_fc H (log_frames ts ++ extra) cs = Ok r ->
+  exists n, cs = map w_commit (firstn n ts) /\ fst r = map rtx_of (firstn n ts).
+Print Assumptions commit_selection_detected.
 
 (* ---- what IS detected: damage inside a disk record ----
    Bytes [d] of the right length replace record [r] of a log (flipped bits, zeroed ranges, anything).
@@ -141,19 +111,18 @@ Check duplicated_frame_rejected : forall (H : bytes -> N) l0 a f b cs,
   recover_fc H (a ++ f :: f :: b) cs = Err VLsn.
 Print Assumptions duplicated_frame_rejected.
 
-(* Non-vacuity and the concrete witness (replayed on the real crate by harness modes api / edit /
-   hostedit): a valid three-transaction log; without the middle commit marker recovery returns
-   transactions 1 and 3 with a Clean tail; with it duplicated, four transactions. *)
+(* Non-vacuity and regression witness for F7 (replayed on the real crate by harness modes api / edit /
+   hostedit): a valid three-transaction log; the full marker list recovers it; without the middle
+   marker, with it duplicated, or with two markers exchanged, recovery is an LSN-continuity error
+   (before the fix these returned transactions [1;3], [1;2;2;3] and [2;1;3] with a Clean tail). *)
 Example c11_witness :
   log_valid exH 0 ex_log /\
-  recover_fc exH (log_frames ex_log) (map w_commit [ex_t1; ex_t3]) = Ok (map rtx_of [ex_t1; ex_t3], TClean) /\
-  recover_fc exH (log_frames ex_log) (map w_commit [ex_t1; ex_t2; ex_t2; ex_t3]) =
-    Ok (map rtx_of [ex_t1; ex_t2; ex_t2; ex_t3], TClean) /\
+  recover_fc exH (log_frames ex_log) (map w_commit ex_log) = Ok (map rtx_of ex_log, TClean) /\
+  recover_fc exH (log_frames ex_log) (map w_commit [ex_t1; ex_t3]) = Err VLsn /\
+  recover_fc exH (log_frames ex_log) (map w_commit [ex_t1; ex_t2; ex_t2; ex_t3]) = Err VLsn /\
+  recover_fc exH (log_frames ex_log) (map w_commit [ex_t2; ex_t1; ex_t3]) = Err VLsn /\
   summarize (recover_segment exH 1 (encode_log exH (remove_nth 4 (log_recs ex_log)))) =
-    summarize (Ok (map rtx_of [ex_t1; ex_t3], TClean)).
+    summarize (Err VLsn).
 Proof.
-  split; [exact ex_log_valid|]. split; [|split].
-  - exact (commit_removal_accepted exH 0 [ex_t1] ex_t2 [ex_t3] ex_log_valid ltac:(discriminate)).
-  - exact (commit_duplicate_accepted exH 0 [ex_t1] ex_t2 [ex_t3] ex_log_valid).
-  - vm_compute. reflexivity.
+  split; [exact ex_log_valid|]. repeat split; vm_compute; reflexivity.
 Qed.
